@@ -9,7 +9,7 @@ const P: &str = "C02";
 pub const LAYOUTS: [(&str, &str, &str, &str); 4] = [("canonical", "", " ", ""), ("tabs-newlines", "", "\t\n", ""), ("padded", "  ", " ", " \n"), ("double-space", "", "  ", "")];
 
 pub fn run(ctx: &Ctx) {
-    let rounds: u64 = if ctx.quick() { 1 } else { 3 };
+    let rounds: u64 = if ctx.quick() { 1 } else { 12 };
     let mut mn: Vec<Vec<usize>> = Vec::new();
     for n in bip39::VALID_COUNTS { for r in 0..rounds { mn.push(valid_indices(ctx.seed, n, 100 + r, None)); } }
     // the all-zero and all-one entropies as well
